@@ -87,9 +87,31 @@ pub(crate) fn run_bin(env: &Env, name: &str, args: &[String], stdin: Option<&[u8
             let _ = si.write_all(&data);
         });
     }
-    let mut out = vec![];
-    child.stdout.take().unwrap().read_to_end(&mut out).ok();
-    let st = child.wait().ok();
+    // stdout is drained by a thread; the process gets a wall-clock limit (the CRF optimiser behind `train` does not
+    // terminate on some degenerate set-ups): a process that exceeds it is killed and reported as `killed`
+    let mut stdout = child.stdout.take().unwrap();
+    let reader = std::thread::spawn(move || {
+        let mut out = vec![];
+        stdout.read_to_end(&mut out).ok();
+        out
+    });
+    let limit = std::time::Duration::from_secs(std::env::var("VERIF_CLI_LIMIT_S").ok().and_then(|x| x.parse().ok()).unwrap_or(120));
+    let start = std::time::Instant::now();
+    let st = loop {
+        match child.try_wait() {
+            Ok(Some(s)) => break Some(s),
+            Ok(None) => {
+                if start.elapsed() > limit {
+                    let _ = child.kill();
+                    let _ = child.wait();
+                    break None;
+                }
+                std::thread::sleep(std::time::Duration::from_millis(3));
+            }
+            Err(_) => break None,
+        }
+    };
+    let out = reader.join().unwrap_or_default();
     let s = match st.and_then(|s| s.code()) {
         Some(0) => "ok",
         Some(101) => "panic",
@@ -365,7 +387,9 @@ pub fn run(seed: u64, n: usize, out: &mut dyn Write) {
                   "-o".into(), p(&env, "trained.zst"), format!("--lambda={reg}"), format!("--max-iter={iters}")],
                 None,
             );
-            if st_t != "ok" {
+            if st_t == "killed" {
+                // the optimiser did not terminate within the limit: training itself is outside the properties
+            } else if st_t != "ok" {
                 diffs.push(format!("train-status:{st_t}/ok"));
             } else {
                 match unzstd_file(&env, "trained.zst") {
